@@ -76,7 +76,7 @@ def run(spec):
     cls.append('n_pre>90')
   post = tbrref.Posterior(X[pre], Y[pre], X[an], Y[an])
   n_an = int(an.sum())
-  if post.degenerate or n_an == 0 or not post.sigma2 > 1e-12 * max(1.0, float(np.var(Y[pre]))):
+  if post.degenerate or n_an == 0 or not post.sigma2 > 1e-12 * float(np.var(Y[pre])):
     return {'viol': [], 'nt': False, 'cls': ['degenerate'], 'dc': 1}
   det = {'n_pre': fs['n_pre'], 'n_an': n_an, 'level': spec['level'], 'tails': spec['tails'], 'rescale': spec['rescale'],
          'cooldown': spec['use_cooldown']}
